@@ -10,7 +10,7 @@ from vmon.gen import atomsgen, patterns, planted, replcase
 from vmon.oracle import atomsmodel as AM
 from vmon.oracle import geometry as G
 
-from vmon.oracle.util import clone
+from vmon.oracle.util import elements_of, clone
 
 PROPERTY = "C08"
 RULE = ("Histories of one or two consecutive real replacements. (i) replace(s, p, p): atom count, every atom's position, "
@@ -111,7 +111,7 @@ def check_noop(ctx, st, S, P, atol, seed, w, variant=0, group=None):
         return len(obs["found"])
     pos_of = {c: i for i, c in enumerate(oid)}
     cell = np.array(S.cell, float)
-    els_in, els_out = list(S.elements), list(out.elements)
+    els_in, els_out = elements_of(S), elements_of(out)
     for i, c in enumerate(ids):
         j = pos_of[c]
         d = G.equal_mod_lattice(cell, np.asarray(out.positions[j], float)[None, :], np.asarray(S.positions[i], float)[None, :])[0]
